@@ -132,6 +132,13 @@ var Log []Logged
 
 const BodyCut = 1000
 
+// Slow + status: the server processes the request (it is in its log with that status) and its
+// answer arrives after SlowDelay of simulated time: a client with a shorter Timeout gives up and
+// sees an error, a client without one (http.Post) gets the answer.  No real waiting.
+const Slow = 2000
+
+var SlowDelay = 30 * time.Second
+
 type cutBody struct{}
 
 func (cutBody) Read([]byte) (int, error) { return 0, io.ErrUnexpectedEOF }
@@ -143,6 +150,10 @@ func Reset(server func(url string, body []byte) int) {
 }
 
 func send(method, u, contentType string, data []byte, req *Request) (*Response, error) {
+	return sendT(method, u, contentType, data, req, 0)
+}
+
+func sendT(method, u, contentType string, data []byte, req *Request, timeout time.Duration) (*Response, error) {
 	label := "Post " + u
 	if method != "POST" {
 		label = method + " " + u
@@ -152,6 +163,10 @@ func send(method, u, contentType string, data []byte, req *Request) (*Response, 
 	if Server != nil {
 		status = Server(u, data)
 	}
+	slow := status >= Slow
+	if slow {
+		status -= Slow
+	}
 	cut := status >= BodyCut
 	if cut {
 		status -= BodyCut
@@ -159,6 +174,9 @@ func send(method, u, contentType string, data []byte, req *Request) (*Response, 
 	Log = append(Log, Logged{u, contentType, data, status})
 	if status == 0 {
 		return nil, errors.New("vhttp: no answer")
+	}
+	if slow && timeout > 0 && timeout < SlowDelay {
+		return nil, errors.New("vhttp: context deadline exceeded (Client.Timeout exceeded while awaiting headers)")
 	}
 	var body io.ReadCloser = io.NopCloser(strings.NewReader("ok\n"))
 	if cut {
@@ -227,11 +245,24 @@ func (c *Client) Do(req *Request) (*Response, error) {
 	if m == "" {
 		m = "GET"
 	}
-	return send(m, req.URL.String(), req.Header.Get("Content-Type"), data, req)
+	to := c.Timeout
+	if dl, ok := req.Context().Deadline(); ok {
+		if d := time.Until(dl); to == 0 || d < to {
+			to = d
+		}
+	}
+	return sendT(m, req.URL.String(), req.Header.Get("Content-Type"), data, req, to)
 }
 
 func (c *Client) Post(u, contentType string, body io.Reader) (*Response, error) {
-	return Post(u, contentType, body)
+	var data []byte
+	if body != nil {
+		var err error
+		if data, err = io.ReadAll(body); err != nil {
+			return nil, err
+		}
+	}
+	return sendT("POST", u, contentType, data, nil, c.Timeout)
 }
 func (c *Client) PostForm(u string, form url.Values) (*Response, error) { return PostForm(u, form) }
 func (c *Client) Get(u string) (*Response, error)                       { return Get(u) }
